@@ -690,6 +690,9 @@ def gen_cases(ctx):
                 if rhs == "bmat" and (max(batch + [1]) == 1 or leaf["k"] == "Ident"):
                     continue        # nothing to broadcast; IdentityLinearOperator's result follows the rhs batch shape
                                     # (outside the documented `*batch N M`, not demanded by C05)
+                if rhs == "bmat" and pname not in (("default", "mcs0", "mcs0-logprob-off", "mcs=n")
+                                                   if name.startswith(MB_PREFIX) else ("default", "mcs0")):
+                    continue        # a broadcast rhs meets the routing only: both routes (+ the two other Cholesky conditions)
                 cells.append((pi, pname, ov, fi, rhs, ld, red))
         if quick:
             # two core cells (default / mcs0 with a matrix rhs and logdet) plus a rotating slice of the full
@@ -854,9 +857,10 @@ def replay_of(case, obs, extra=None):
 # ------------------------------------------------------------------------------------------ run
 
 def run_shards(ctx, shards, timeout=900, workers=None):
-    """common.run_shards with a bounded number of concurrent shard compilers (default 3; C05_SHARD_WORKERS overrides)"""
+    """common.run_shards with a bounded number of concurrent shard compilers (quick: 3, thorough: 12 as common.run_shards;
+    C05_SHARD_WORKERS overrides)"""
     from concurrent.futures import ThreadPoolExecutor
-    workers = workers or int(os.environ.get("C05_SHARD_WORKERS", "3"))
+    workers = workers or int(os.environ.get("C05_SHARD_WORKERS", "3" if ctx.quick else "12"))
     paths = []
     for name, src in shards:
         p = os.path.join(ctx.gen, "cases_%s.v" % name)
